@@ -33,8 +33,52 @@ def _nontrivial(obs, new):
 
 def run_case(case, tier):
     res, obs = fixprops.run_props(case, tier, PROPS, _nontrivial)
+    if "out_text" in obs and not obs.get("crash") and not obs["labels"].get("excluded_downstream_by_corruption") and (common.stable_seed(obs["out_text"][:200]) % 3 == 0 or "text" in case):
+        _report_level(case, res)
     return res
 
 
 def shrink(case, sig, tier, budget):
     return fixprops.shrink_generic(run_case, case, sig, tier, budget)
+
+
+def _report_level(case, res):
+    """end to end through the in-process CLI: the report printed by --fix == the report of a following plain run on the written file"""
+    import json
+    import os
+
+    from harness import engine, vsgapi
+
+    _, new, _, _ = common.realise_layout(case)
+    style, conf = case.get("style"), case.get("conf")
+    d = os.path.join(vsgapi.scratch_dir(), "c08_%d" % os.getpid())
+    os.makedirs(d, exist_ok=True)
+    fn = os.path.join(d, "x.vhd")
+    with open(fn, "w") as fh:
+        fh.write(new + "\n")
+    base = ["-p", "1", "-f", fn] + (["--style", style] if style else []) + ((["-c"] + vsgapi.write_conf_files([conf])) if conf else [])
+    out = {}
+    for tag, extra in (("fix", ["--fix"]), ("fresh", [])):
+        js = os.path.join(d, tag + ".json")
+        if os.path.exists(js):
+            os.remove(js)
+        code, so, se, exc = vsgapi.run_cli(base + extra + ["-js", js])
+        if exc is not None:
+            res["labels"]["cli_crash_(C19)"] = 1
+            return
+        try:
+            v = sorted((x["rule"], x["linenumber"], str(x["solution"]), x["severity"]) for x in json.load(open(js))["files"][0]["violations"])
+        except Exception:
+            v = None
+        out[tag] = (code, v, "Error while processing" in se)
+    res["labels"]["report_level_checks"] = 1
+    a, b = out["fix"], out["fresh"]
+    concrete = {"text": new, "style": style, "conf": conf}
+    if b[2] and not a[2]:
+        res["failures"].append({"sig": {"kind": "written_file_rejected_by_fresh_run"}, "detail": {}, "case": concrete})
+    elif a[1] != b[1] or a[0] != b[0]:
+        x = [t for t in (a[1] or []) if t not in (b[1] or [])]
+        y = [t for t in (b[1] or []) if t not in (a[1] or [])]
+        first = (x or y or [("?",)])[0]
+        res["failures"].append({"sig": {"kind": "fix_report_differs_from_fresh_check", "site": engine.site_of_id(first[0]), "where": "only_in_fix_report" if x else "only_in_fresh_report" if y else "exit_status"},
+                                "detail": {"only_fix_report": x[:3], "only_fresh_report": y[:3], "exit": (a[0], b[0])}, "case": concrete})
